@@ -184,6 +184,33 @@ class NeuralTS(RLAlgorithm):
             [w.flatten() for w in self.exp_layer.parameters() if w.requires_grad]
         ).detach()
 
+    def load_checkpoint(self, path: str) -> None:
+        """Loads saved agent properties and network weights from checkpoint.
+
+        :param path: Location to load checkpoint from
+        :type path: string
+        """
+        super().load_checkpoint(path)
+
+        # The exploration layer must be the actor's own output layer rather than the
+        # copy of it that was unpickled from the checkpoint
+        self.exp_layer = self.actor.get_output_dense()
+
+    @classmethod
+    def load(cls, path: str, device: str = "cpu", accelerator: Optional[Any] = None):
+        """Loads an algorithm from a checkpoint.
+
+        :param path: Location to load checkpoint from.
+        :type path: string
+        :param device: Device to load the algorithm on, defaults to 'cpu'
+        :type device: str, optional
+        :param accelerator: Accelerator object for distributed computing, defaults to None
+        :type accelerator: Optional[Accelerator], optional
+        """
+        agent = super().load(path, device=device, accelerator=accelerator)
+        agent.exp_layer = agent.actor.get_output_dense()
+        return agent
+
     def get_action(
         self, obs: ObservationType, action_mask: Optional[ArrayLike] = None
     ) -> int:
